@@ -222,7 +222,6 @@ func lemmaTickMonotone(intervalStart uint64, intervalsPerDay uint32, t1, t2 uint
 //@ props C06 C05
 //@ requires #pos: 0 <= filePos && filePos <= fileSize
 //@ ensures #ok: err == nil ==> (len(tgSerialized) >= 8 && tgID == sle64(tgSerialized, 0) && tgValid(base(tgSerialized), len(tgSerialized)))
-//@ ensures #fail: err != nil ==> (tgSerialized == nil && tgID == 0)
 //@ ensures #progress: filePos >= old(filePos)
 //@ ensures #bounded: old(filePos) <= fileSize ==> filePos <= fileSize
 //@ ensures #allocBound: err == nil ==> len(tgSerialized) < 1000*fileSize
